@@ -700,3 +700,15 @@ def c03_grown_row_dtype(rec, params):
     a = rec.get('actual') or {}
     return case.get('probe') == 'grown_row_dtype' and a.get('grown_values_dtype') == ['O', 0] and a.get('columns_equal') is True
 
+
+@classifier
+def c07_number_in_iterable_with_timedelta(rec, params):
+    '''an iterable of Python values mixing a timedelta64 with Booleans / ints is handed to NumPy unguarded, which reads the numbers as durations'''
+    case, pairs = _c07_pairs(rec)
+    if case.get('site') not in ('from_records', 'series_from_list', 'series_from_list_rev') or rec.get('clause') != 'lossy':
+        return False
+    if not any(s[0] in ('m', 'mz') for s, _ in pairs):
+        return False
+    bad = [(s, t) for s, t in pairs if not _same07(s, t)]
+    return bool(bad) and all(s[0] in ('b', 'i', 'I') and t[0] in ('m', 'mz') for s, t in bad)
+
